@@ -222,7 +222,8 @@ def run(ctx):
     phases['model_checking'] = round(ctx.elapsed(), 1)
 
     runs = []       # (replay payload, trace case)
-    budget = time.time() + (100 if quick else 800)
+    budget = time.time() + (70 if quick else 700)
+    max_pairs = 90 if quick else 1200
 
     def add_perm(P, C, ops, classes, iface, origin, base=None):
         root = os.path.join(ctx.work, f'r{len(runs)}')
@@ -253,7 +254,7 @@ def run(ctx):
         ctx.rng.shuffle(pool)
         npairs = 0
         for i, (P, origin) in enumerate(pool):
-            if time.time() > budget and npairs >= 40:
+            if (time.time() > budget and npairs >= 40) or npairs >= max_pairs:
                 ctx.cover['stopped_by_budget_after_projects'] = i
                 break
             C = simple_config(ctx.rng, P, False)
@@ -270,7 +271,7 @@ def run(ctx):
                     if base['raised']:
                         break       # pipeline not applicable to this project (C25's business)
         # ---- 3. collection histories (TLC generated) on real containers of items
-        hists = gen_histories(ctx, 60 if quick else 400, 10)
+        hists = gen_histories(ctx, 40 if quick else 300, 10)
         for h in hists:
             for cont in CONTAINERS:
                 runs.append(({'kind': 'law', 'container': cont, 'events': h, 'origin': 'tlc'}, law_case(replay_history(h, cont))))
@@ -278,7 +279,7 @@ def run(ctx):
 
     # ---- 4. TLC decides
     verdicts = ctx.validate('Trace_SchedCase', 'Trace_SchedCase', [t for _, t in runs], per_shard_min=40,
-                            extra_env={'JAVA_TOOL_OPTIONS': '-Xss256m'})
+                            shards=4 if quick else None, extra_env={'JAVA_TOOL_OPTIONS': '-Xss256m'})
     phases['trace_validation'] = round(ctx.elapsed() - sum(phases.values()), 1)
     clauses, pipes, classes_seen, conts = {}, {}, {}, {}
     accepted_perm = 0
